@@ -632,7 +632,9 @@ package yqlib
 //@   requires validCtx(context) && expressionNode != nil && expressionNode.Operation != nil
 //@   modifies anynode.Content, anynode.Value, anynode.Kind, anynode.Tag, anynode.Alias, anynode.Anchor, anynode.Style, anynode.FootComment, anynode.HeadComment, anynode.LineComment
 //@   ensures @returns-input-context implies(result1 == nil, result0 == context)
+//@   at return: assert @every-match-had-its-turn {C02} implies(result1 == nil && old(expressionNode.Operation.UpdateAssign), calls(GetMatchingNodes) == 1 + len(lhs.MatchingNodes))
 //@   loop 1:
+//@     invariant @one-evaluation-per-match {C02} calls(GetMatchingNodes) == 1 + iter()
 //@     invariant @nodes nodeList(lhs.MatchingNodes)
 //@     invariant @back-to-front {C02} (el == nil && iter() == len(lhs.MatchingNodes)) || (el != nil && elList(el) == lhs.MatchingNodes && elIdx(el) == len(lhs.MatchingNodes) - 1 - iter())
 
@@ -1171,8 +1173,11 @@ package yqlib
 //@     invariant node.Anchor == "" && anchorsOnlyRemoved() && node.Kind == SequenceNode && node.Content == old(node.Content)
 //@     invariant @done-so-far-anchors forall(i, 0, rangeidx(), node.Content[i].Anchor == "")
 //@     invariant @done-so-far-aliases forall(i, 0, rangeidx(), node.Content[i].Kind != AliasNode || node.Content[i].Alias == nil)
+//@   at explodeNode#3: assert @every-key-is-exploded {C13} arg0 == node.Content[index] && valueNode == node.Content[index+1]
+//@   at explodeNode#4: assert @every-value-is-exploded {C13} arg0 == valueNode
 //@   loop 3:
 //@     invariant node.Anchor == "" && anchorsOnlyRemoved()
+//@     invariant @two-explosions-per-entry {C13} calls(explodeNode) == index && index % 2 == 0
 
 //@ func reconstructAliasedMap
 //@   props C13
